@@ -82,7 +82,7 @@ theorem src_val (hs : Spec r bbs "tie_0" "tie_1" c) {v : Val} (hc : Consistent c
     obtain ⟨⟨at', hm, hty⟩, _⟩ := node_of_spec hs (n := "tie_0") (t := "0") (o := false) (Or.inr (Or.inl ⟨rfl, rfl, hu⟩))
     exact hc _ hm "0" hty false (gateFn_zero _)
   | c1 =>
-    obtain ⟨⟨at', hm, hty⟩, _⟩ := node_of_spec hs (n := "tie_1") (t := "1") (o := false) (Or.inr (Or.inr ⟨rfl, rfl, hu⟩))
+    obtain ⟨⟨at', hm, hty⟩, _⟩ := node_of_spec hs (n := "tie_1") (t := "1") (o := false) (Or.inr (Or.inr (Or.inl ⟨rfl, rfl, hu⟩)))
     exact hc _ hm "1" hty true (gateFn_one _)
 
 /-- the edges into a node a statement defines are that statement's -/
